@@ -73,6 +73,9 @@ def make_post(name):
         if isinstance(exc, probe.StepBudgetExceeded):
             _fail(name, 'does-not-terminate', 'on ' + model.show(before, 'w'))
             return
+        if isinstance(exc, ValueError) and name in ('boyd_split', 'binarize') \
+                and any(n.head is None for n in before.nodes()):
+            return      # documented prerequisite (head marking) not met
         if exc is not None:
             _fail(name, 'raises', '%r on %s' % (exc, model.show(before, 'w')))
             return
